@@ -2,6 +2,7 @@ SPECIFICATION Spec
 CONSTANTS
   KeyOrder <- KO3
   Ctxs <- CtxQ2
+  Flows <- SingleFlows
   Calls <- CallsWide
 INVARIANT GetIsRef
 INVARIANT ContainsIsRef
@@ -20,4 +21,5 @@ INVARIANT DeleteExact
 INVARIANT FuwExact
 INVARIANT OnlyDocumentedExceptions
 PROPERTY QueriesPure
+PROPERTY ElementStateless
 CHECK_DEADLOCK FALSE
